@@ -290,8 +290,8 @@ func c10R3(e *Engine) {
 			})
 		}
 	}
-	if n < 4 {
-		e.fail("R3", "count:R3", "-", "only %d of the 4 v1 conversion literals found", n)
+	if n < 2 {
+		e.fail("R3", "count:R3", "-", "only %d v1 conversion literals found (one per direction at least)", n)
 	}
 }
 
